@@ -1,6 +1,7 @@
 package main
 
 import (
+	"strings"
 	"crypto/sha256"
 	"fmt"
 	"net/netip"
@@ -96,7 +97,13 @@ func newMesh(c *Ctx, kind string, n int, labelMode int, infoPad func(i int) int,
 	for i := 0; i < n; i++ {
 		st := config.Store{Router: config.Router{Listen: []string{"tcp:47369"}}}
 		if infoPad != nil {
-			for k := 0; k < infoPad(i); k++ {
+			pad := infoPad(i)
+			if pad >= 1000 {
+				// a filler of pad-1000 bytes in the public info: sets the size of the router's own announcement
+				st.Router.IANA = []string{strings.Repeat("x", pad-1000)}
+				pad = 0
+			}
+			for k := 0; k < pad; k++ {
 				st.Router.Listen = append(st.Router.Listen, fmt.Sprintf("tcp:%d", 20000+k))
 			}
 		}
